@@ -283,11 +283,14 @@ def diffs(ctx, f, x, n=None, **options):
         callprec = ctx.prec
         y, norm, workprec = hsteps(ctx, f, x, B, callprec, **options)
         for k in xrange(A, B):
+            # the generator may be resumed under a different precision
+            # than the one it was suspended with
+            prec = ctx.prec
             try:
                 ctx.prec = workprec
                 d = ctx.difference(y, k) / norm**k
             finally:
-                ctx.prec = callprec
+                ctx.prec = prec
             yield +d
             if k >= n:
                 return
